@@ -44,7 +44,7 @@ def strategy():
     return hs.cases(
         families=['gauss', 'twomax', 'banana', 'banana', 'funnel', 'funnel',
                   'rfunnel', 'halfspace', 'stairs', 'constant', 'wrap',
-                  'wrap', 'slab'],
+                  'wrap', 'slab', 'spike'],
         blobs=['none', 'none', 'float'], priors=['identity'],
         networks=(0, 0, 0, 1), pools=('none', 'none', 'none', 'spool2'),
         hist_kw=dict(resume=True, max_ops=6))
